@@ -22,8 +22,10 @@ for p in props:
             "thorough_cmd": "./check %s --tier thorough" % pid,
             "evidence_file": "evidence/%s.json" % pid,
             "replay_cmd_template": "./check %s --replay {path}" % pid,
-            "engine": meta.get("engine", "engine-A (message-level deterministic simulation)"),
-            "level_claimed": {"category": meta.get("category", "exploration"), "text": meta["level"], "design_ref": meta.get("design_ref", "DESIGN.md §7 " + pid)},
+            "engine": meta.get("engine", {"C16": "engine-B (step-level deterministic simulation)", "C17": "engine-B (step-level deterministic simulation)",
+                                          "C04": "engine-A (message-level) and engine-B (step-level) deterministic simulation"}.get(pid, "engine-A (message-level deterministic simulation)")),
+            "level_claimed": {"category": meta.get("category", "exploration"), "text": meta["level"], "design_ref": meta.get("design_ref", {"C04": "DESIGN.md §7 C04, §14, §17", "C07": "DESIGN.md §16", "C09": "DESIGN.md §15.2", "C13": "DESIGN.md §15.1",
+                                                                "C16": "DESIGN.md §14, §17", "C17": "DESIGN.md §14", "C19": "DESIGN.md §7 C19, §18.3"}.get(pid, "DESIGN.md §7 " + pid + ", §13, §18"))},
             "level_note": meta["note"],
             "technique": meta.get("technique", "deterministic simulation with fault injection (seeded search over schedules and faults)"),
         })
@@ -41,8 +43,10 @@ manifest = {
         "add_only": True,
     },
     "engines": [
-        {"name": "engine-A", "path": "sim/", "serves_properties": [c["property_id"] for c in checks],
-         "kind_free_text": "message-level deterministic simulator: real server handlers + real Go client + real CRDTs in one testing/synctest bubble; seeded scheduler decides every client call, message fault, storage fault, crash, background task and clock advance"},
+        {"name": "engine-A", "path": "sim/", "serves_properties": [c["property_id"] for c in checks if c["property_id"] not in ("C16", "C17")],
+         "kind_free_text": "message-level deterministic simulator: real server handlers + real Go client + real CRDTs in one testing/synctest bubble; seeded scheduler decides every client call, message fault (loss, stale duplicate, corruption), storage fault, crash, background task and clock advance; one RPC is one atomic step"},
+        {"name": "engine-B", "path": "sim/engineb.go + tools/geninstr.py (build overlay)", "serves_properties": ["C04", "C16", "C17"],
+         "kind_free_text": "step-level deterministic simulator: several requests in flight, every task on its own goroutine, exactly one runs at a time and yields at every storage call, every named-lock operation and every instrumented mutex; a seeded scheduler with a model of the named RW locks (announced writers) decides who continues, when simulated time passes, when a request is duplicated in flight and when the server process dies; the schedule is recorded in the trace and followed on replay"},
     ],
     "checks": checks,
     "not_applicable": na,
